@@ -23,7 +23,7 @@ func init() {
 			"(f) the node is offered the worker's whole payload, directly or as the sub-slices [offset:offset+entries] of Scatter's own callback parameters; (g) the semaphore is released by defer after a successful Acquire; " +
 			"(h) classification helpers return nil only on arms guarded by a server-type test (the tolerated (server, message) pairs are extracted and reported, not frozen); " +
 			"(i) util.Scatter starts `workers` goroutines, its channels have capacity `workers` and its collector performs `workers` receives without early exit. " +
-			"Added with the third seeding round: (f, extended) once the semaphore is held every path of a worker calls its node; (i, extended) Scatter's worker count is ceil(inputLen/extent). NOT decided: lost-wakeup timing of the condition variable, extent arithmetic of Scatter, behaviour when concurrency < nodes, wall-clock bounds.",
+			"Added with the third seeding round: (f, extended) once the semaphore is held every path of a worker calls its node; (i, extended) Scatter's worker count is ceil(inputLen/extent). Added with the fourth seeding round: (k) no errgroup context in the submitter; (l) case-folded texts are searched for constants of the same case. NOT decided: lost-wakeup timing of the condition variable, extent arithmetic of Scatter, behaviour when concurrency < nodes, wall-clock bounds.",
 		Technique: "template conformance of sibling implementations on SSA (roles bound by types and call resolution), AST loop-exit analysis, guard/edge-deletion queries, error-nilness analysis of classification helpers, provenance of goroutine arguments",
 		Rule:      "obligations (a)-(g) per submitter entry/worker pair, (h) per classification helper, (i) for Scatter",
 	})
